@@ -7,9 +7,11 @@ import sys
 from harness.core import pool, tb
 from harness.gen import systems
 
-PROOF_MODULE = "OdeVerif.Proofs.C07"
+PROOF_MODULE = ["OdeVerif.Proofs.C07", "OdeVerif.Proofs.RefineConfig"]
+GENERATED = ['PyConfig', 'Constants']
 THEOREMS = ["OdeVerif.C07.probe_history_independent", "OdeVerif.C07.run_pointwise", "OdeVerif.C07.unspecified_takes_default",
-            "OdeVerif.C07.defaults_documented", "OdeVerif.C07.unknown_option_rejected", "OdeVerif.C07.prefix_history_dependent"]
+            "OdeVerif.C07.defaults_documented", "OdeVerif.C07.unknown_option_rejected", "OdeVerif.C07.prefix_history_dependent",
+            "OdeVerif.Refine.readGlobalConfig_refines"]
 LEVEL = "proof"
 
 OPTION_MENU = [("input_time_symbol", ["s", "time"]), ("output_timestep_symbol", ["dt", "h_step"]), ("differential_order_symbol", ["_D", "__prime"]),
